@@ -14,11 +14,11 @@ Of(names) == [i \in DOMAIN names |-> T[names[i]]]
 WClass == {"W1", "W2", "WA", "WB", "HASH"}
 \* a block-start token is always followed by "{" (the regex look-ahead): it is appended together with it
 Add(a) == IF IsAT(T[a].k) THEN <<T[a], T["LB"]>> ELSE <<T[a]>>
-\* adjacent plain-text tokens would lex as one token; a lone backslash is generated before a newline only; an
+\* adjacent plain-text tokens would lex as one token; a lone backslash is generated before a newline or an escape only; an
 \* "@word" that is not a block start must not be followed by blanks/brace
 OkNext(toks, a) ==
     /\ ~(Len(toks) > 0 /\ toks[Len(toks)].k \in {"W", "H"} /\ a \in WClass)
     /\ ~(Len(toks) > 0 /\ toks[Len(toks)].k = "SP" /\ a = "SP")
-    /\ ~(Len(toks) > 0 /\ toks[Len(toks)].w = 23 /\ a # "NL")
+    /\ ~(Len(toks) > 0 /\ toks[Len(toks)].w = 23 /\ a \notin {"NL", "ESC"})     \* "\" NL   and   "\\}" (escaped delimiter after a backslash)
     /\ ~(Len(toks) > 0 /\ toks[Len(toks)].w = 24 /\ a \in {"LB", "SP"})
 =============================================================================
